@@ -159,6 +159,30 @@ def run(ctx: Ctx, tier: str) -> Result:
         ret_ok = len(racc) == 1 and (racc[0].value is cp or (isinstance(racc[0].value, ast.Name) and any(
             k == "assign" and b_[1] is cp for k, b_ in t.local_bindings(matcher, racc[0].value.id))))
         anchor = cp
+    elif not loops and not comps and [c for c in t.calls_in(matcher) if norm(c.func).endswith("chain.from_iterable") and len(c.args) == 1
+                                        and isinstance(c.args[0], ast.GeneratorExp)]:
+        # list(chain.from_iterable(trigger.actions for trigger in <all matching triggers>)): every match contributes all its actions
+        ch = [c for c in t.calls_in(matcher) if norm(c.func).endswith("chain.from_iterable")][0]
+        ge = ch.args[0]
+        g0 = ge.generators[0]
+        tv = norm(g0.target)
+        src_ = g0.iter
+        cond_ok = False
+        if len(ge.generators) == 1 and norm(ge.elt) == tv + ".actions":
+            if len(g0.ifs) == 1 and g0.ifs[0] is at:
+                it_expr, cond_ok = src_, True                                  # ... for trigger in installed if trigger.at_location(..)
+            elif not g0.ifs and isinstance(src_, ast.GeneratorExp) and len(src_.generators) == 1 and len(src_.generators[0].ifs) == 1 \
+                    and src_.generators[0].ifs[0] is at and norm(src_.elt) == norm(src_.generators[0].target):
+                it_expr, cond_ok = src_.generators[0].iter, True                # ... for trigger in (t for t in installed if t.at_location(..))
+        exits = []
+        adds_ok = cond_ok
+        if not cond_ok:
+            it_expr = src_
+            res.fail(Finding("C03.LOOP", matcher.qname, ch, matcher.loc(ch), "the chained generator does not yield `all actions of every trigger that matches`"))
+        racc = [n for n in t.nodes_in(matcher, ast.Return)]
+        wrap = racc[0].value if len(racc) == 1 else None
+        ret_ok = wrap is ch or (isinstance(wrap, ast.Call) and norm(wrap.func) in ("list", "tuple") and len(wrap.args) == 1 and wrap.args[0] is ch)
+        anchor = ch
     else:
         # neither a loop over the installed triggers nor the equivalent comprehension: whatever is there (first match only,
         # a lookup by key) does not visit every trigger and add all actions of each matching one
